@@ -435,10 +435,13 @@ class HttpProxyPlugin(HttpProtocolHandlerPlugin):
                 not self.request.is_https_tunnel or self._tls_intercept_enabled
             ):
                 if self.pipeline_request is not None and \
+                        self.pipeline_request.is_complete and \
                         self.pipeline_request.is_connection_upgrade:
                     # Previous pipelined request was a WebSocket
                     # upgrade request. Incoming client data now
                     # must be treated as WebSocket protocol packets.
+                    # (A request that is still being received is
+                    # not an established upgrade, keep parsing it.)
                     self.upstream.queue(raw)
                     return
                 if self.pipeline_request is None:
